@@ -70,7 +70,7 @@ pub enum Class {
 
 pub fn classify_to(a: &Option<AttrVal>) -> Class {
     let s = match a {
-        None | Some(AttrVal::Bare) => return Class::Invalid, // missing / valueless
+        None | Some(AttrVal::Bare) | Some(AttrVal::Unquoted(_)) => return Class::Invalid, // missing / valueless / unquoted (no value recorded)
         Some(AttrVal::Val(s)) => s.as_str(),
     };
     if let Some(w) = parse_to_canonical(s) {
@@ -286,6 +286,7 @@ pub fn generate(seed: u64) -> C05Scn {
     tos.push(Some(AttrVal::Val(rng.pick(TO_GREY).to_string())));
     tos.push(None);
     tos.push(Some(AttrVal::Bare));
+    tos.push(Some(AttrVal::Unquoted(reftime::format_wall(walls[0]).replace(' ', "T"))));
     let names = [None];
     let p = GenParams {
         max_elems: 9,
@@ -296,8 +297,8 @@ pub fn generate(seed: u64) -> C05Scn {
         allow_wrapper_layouts: false,
         allow_inline: true,
         allow_multiline_tag: true,
-        allow_other: false,
-        allow_skip: false,
+        allow_other: true,
+        allow_skip: true,
         tl_eighths: 8,
         crlf_eighths: 1,
         large_inputs: false,
@@ -414,7 +415,7 @@ fn run_exec(scn: &C05Scn, r: &Run, text: &str) -> (Fs, Exec) {
             decoy.clone()
         }
     };
-    (fs, Exec { argv, stdin, env: r.env.clone(), clock, io: r.io.clone() })
+    (fs, Exec { argv, stdin, env: r.env.clone(), clock, io: r.io.clone(), stdout_tty: false })
 }
 
 /// (parent id, element) pairs in document order
@@ -610,13 +611,15 @@ pub fn run(scn: &C05Scn, stats: &mut RunStats) -> Option<Violation> {
 
         // --- per-run oracle against the reference ---------------------------------
         for (parent, e) in &elems {
-            if e.kind != Kind::Tl {
-                continue;
-            }
             if let Some(p) = parent {
                 if absent.contains(p) {
                     continue; // swallowed by a removed ancestor
                 }
+            }
+            if e.kind != Kind::Tl || e.skip {
+                // an unregistered tag name, or `skip`: what happens to these is C06's business, not
+                // C05's; they are in the document as distractors and are not judged here
+                continue;
             }
             let to_class = classify_to(&e.to);
             let observed = absent.contains(&e.id);
